@@ -4,7 +4,7 @@ from props.profiles_common import *
 
 ASSUMPTIONS = ['NFC is the external crate unicode-normalization, modelled executably from its dumped tables and compared with the crate on every run']
 TRUSTED = ['specifications of the individual steps: C02/C03/C14 (validation), C12 (space mapping)']
-FACT_MODULES = ['Precis.Facts.Prof']
+FACT_MODULES = ['Precis.Facts.Prof', 'Precis.Props.C05More']
 
 
 def correspondence(ctx):
